@@ -148,6 +148,17 @@ class _RemotePathMapper:
                 if data_loc.data_type != DataType.INVALID:
                     self.invalidate_location(data_loc.location, data_loc.path)
 
+    def invalidate_data_location(self, data_location: DataLocation) -> None:
+        # Invalidate a single data location, leaving the related ones untouched
+        data_location.data_type = DataType.INVALID
+        for related_location in self.get(data_location.path):
+            node = self._filesystem
+            for token in Path(related_location.path).parts:
+                node = node.children[token]
+            node.valid_paths.get(data_location.deployment, {}).get(
+                data_location.name, set()
+            ).discard(data_location.path)
+
     def put(
         self, path: str, data_location: DataLocation, recursive: bool = False
     ) -> DataLocation:
@@ -450,7 +461,7 @@ class DefaultDataManager(DataManager):
             # The copy failed: the destination data locations registered above will never
             # become available, so invalidate them and wake up whoever is waiting on them
             for data_location in data_locations:
-                data_location.data_type = DataType.INVALID
+                self.path_mapper.invalidate_data_location(data_location)
                 data_location.available.set()
             raise
         # Mark all destination data locations as available
